@@ -512,6 +512,20 @@ def flip(b, i=0):
     return bytes(b)
 
 
+def run_authenticated_empty(ctx, eng, cases, meta):
+    """Every authenticated mode over the EMPTY message (and one byte): tag, AAD and nonce each changed must be refused."""
+    rng = ctx.subrng('auth-empty')
+    for bits in (128, 192, 256):
+        key = rbytes(rng, bits // 8)
+        for aad in (None, b'', b'header'):
+            for taglen in (4, 12, 16):
+                for ivk in ('absent', 12, 16):
+                    for msg in (b'', b'\x00'):
+                        iv = None if ivk == 'absent' else rbytes(rng, ivk)
+                        p = dict(alg=A.AES, key=key, mode=M.GCM, pad=None, iv=iv, aad=aad, taglen=taglen)
+                        one_symmetric(ctx, eng, rng, p, msg, True, cases, meta)
+
+
 def run_symmetric(ctx, eng, cases, meta):
     rng = ctx.subrng('sym')
     quick = ctx.tier == 'quick'
@@ -591,6 +605,10 @@ def one_symmetric(ctx, eng, rng, p, msg, in_coq, cases, meta):
             one_decrypt(ctx, eng, dp, ct, flip(tag, rng.randrange(len(tag))), None, in_coq, cases, meta, 'tamper-tag')
             aad2 = flip(p['aad']) if p['aad'] else b'x'
             one_decrypt(ctx, eng, dict(dp, aad=aad2), ct, tag, None, in_coq, cases, meta, 'tamper-aad')
+            if used_iv:
+                one_decrypt(ctx, eng, dict(dp, iv=flip(used_iv, rng.randrange(len(used_iv)))), ct, tag, None, in_coq, cases, meta, 'tamper-nonce')
+            if p['aad']:
+                one_decrypt(ctx, eng, dict(dp, aad=None), ct, tag, None, in_coq, cases, meta, 'tamper-aad')
         # ---- decrypt-side parameter variations on a valid ciphertext
         if in_coq:
             one_decrypt(ctx, eng, dict(dp, iv=None), ct, tag, 'any', True, cases, meta, 'no-iv')
@@ -625,7 +643,7 @@ def one_decrypt(ctx, eng, p, ct, tag, expect, in_coq, cases, meta, label):
         return
     if expect is None:
         if o == 'done':
-            viol(ctx, 'decrypt', 'GCM accepted a modified %s' % label.split('-')[1], p, {'ct': ct.hex()[:200], 'tag': tag.hex()})
+            viol(ctx, 'decrypt', 'GCM accepted a modified %s%s' % (label.split('-')[1], '' if ct else ' (empty message)'), p, {'ct': ct.hex()[:200], 'tag': tag.hex()})
     else:
         if o != 'done' or v != expect:
             viol(ctx, 'decrypt', 'Decrypt does not invert Encrypt', p,
@@ -946,13 +964,13 @@ def run_rsa(ctx, eng, cases, meta, rsa_cache):
                     mx = kbytes - 2 * R.DIGEST[hid] - 2
                 else:
                     mx = kbytes - 11
-                for ln in [0, 1, 16, mx, mx + 1]:
+                for ln in [0, 1, 16, mx - 1, mx, mx + 1, mx + 2, kbytes, kbytes + 1]:
                     for keyk in ['good', 'garbage']:
                         if keyk == 'garbage' and ln != 1:
                             continue
                         if ln < 0:
                             continue
-                        if quick and size == 2048 and ln in (1,) and keyk == 'good':
+                        if quick and size == 2048 and ln in (1, kbytes + 1) and keyk == 'good':
                             continue
                         msg = rbytes(rng, ln)
                         key = pub if keyk == 'good' else garbage
@@ -1000,6 +1018,38 @@ def run_rsa(ctx, eng, cases, meta, rsa_cache):
                         o3, v3, _ = call(eng.decrypt, A.RSA, others[size][1], ct, padding_method=pad, hashing_algorithm=h)
                         if o3 == 'done' and v3 == msg and len(msg) >= 16:
                             viol(ctx, 'decrypt', 'RSA decrypt with another key returned the message', dict(p, key=b''), {})
+        # cipher texts of the wrong length / random bytes / garbled: the backend's refusal is CryptographicFailure (fix 2eb33d4);
+        # where the reference path decrypts (PKCS1v15 implicit rejection is deterministic) the engine must agree
+        for pad, h in [(P.PKCS1v15, None), (P.OAEP, H.SHA_1), (P.OAEP, H.SHA_256)]:
+            hid = hid_of_hash(h)
+            kind = 'OAEP' if pad == P.OAEP else 'PKCS1'
+            good = R.rsa_encrypt(pub, kind, hid, b'sixteen byte msg')
+            variants = [('random', rbytes(rng, kbytes)), ('short', rbytes(rng, kbytes - 1)), ('long', rbytes(rng, kbytes + 1)),
+                        ('empty', b''), ('garbled', flip(good, rng.randrange(kbytes))), ('zero-prefixed', b'\x00' + good),
+                        ('truncated', good[:-1]), ('all-ones', b'\xff' * kbytes)]
+            for label, cts in variants:
+                try:
+                    refpt = R.rsa_decrypt(priv, kind, hid, cts)
+                    asym_ok = True
+                except Exception:
+                    refpt, asym_ok = None, False
+                o, v, calls = call(eng.decrypt, A.RSA, priv, cts, padding_method=pad, hashing_algorithm=h)
+                ctx.count('rsa_decrypt.%s.%s' % (label, o.split(':')[0]))
+                ctx.case_seen(('rsadec', size, ev(pad), ev(h), label))
+                c2 = last_call(calls, 'rsacrypt')
+                if c2 is not None:
+                    c2 = dict(c2, key=c2['key'][:8])
+                dp = dict(alg=A.RSA, key=priv[:8], key_loads=True, mode=None, pad=pad, iv=None, aad=None, taglen=None, hash=h)
+                cases.append('KDec %s %s %s %s %s %s' % (enc_params_term(dp), cp.byts(cts[:4]), outcome_term(o), call_term(c2), cp.byts(b''),
+                                                       cp.boolean(asym_ok)))
+                meta.append(('rsa_decrypt/' + label, pj(dict(dp, key=b'')), len(cts), o))
+                pd = dict(pad=pad, hash=h, size=size, variant=label)
+                if o.startswith('crash') or o.startswith('kmip:'):
+                    viol(ctx, 'decrypt', 'RSA decrypt of a malformed cipher text left with ' + o, pd, {'ct': cts.hex()[:200]})
+                if asym_ok and (o != 'done' or v != refpt):
+                    viol(ctx, 'decrypt', 'RSA decrypt disagrees with the reference on a cipher text the backend accepts', pd, {'ct': cts.hex()[:200]})
+                if label in ('garbled',) and kind == 'OAEP' and o == 'done':
+                    viol(ctx, 'decrypt', 'OAEP accepted a modified cipher text', pd, {'ct': cts.hex()[:200]})
         # decrypt-side rejections
         for pad, h, keyk in [(P.PSS, None, 'good'), (None, None, 'good'), (P.OAEP, None, 'good'), (P.OAEP, H.MD2, 'good'), (P.OAEP, H.SHA_1, 'garbage'), (P.PKCS1v15, None, 'garbage')]:
             key = priv if keyk == 'good' else garbage
@@ -1080,6 +1130,19 @@ def run_rsa(ctx, eng, cases, meta, rsa_cache):
             o4, r4, _ = verify(pub, msg, flip(sig, rng.randrange(len(sig))))
             if o4 != 'done' or r4 is not False:
                 viol(ctx, 'verify_signature', 'a modified signature is not reported invalid', p, {'outcome': o4, 'result': str(r4)})
+            # a signature whose length is not the modulus length is never valid: leading / trailing zero octets, truncation
+            for label, s2 in (('zero-prefixed', b'\x00' + sig), ('two zero octets prefixed', b'\x00\x00' + sig), ('zero-suffixed', sig + b'\x00'),
+                              ('first octet dropped', sig[1:]), ('last octet dropped', sig[:-1]), ('empty', b'')):
+                o7, r7, _ = verify(pub, msg, s2)
+                if o7 == 'done' and r7 is not False:
+                    if label == 'first octet dropped' and sig[0] == 0:
+                        ctx.violation(dict(PSS_ZERO_SIG, padding=kind if kind == 'PSS' else 'PKCS1v15'), {'size': size, 'msg': msg.hex()[:100], 'signature': s2.hex()},
+                                      'C06 verify_signature: a genuine signature with its leading zero octet dropped is reported valid')
+                    else:
+                        viol(ctx, 'verify_signature', 'a genuine signature changed in length (%s) is reported valid' % label, p,
+                             {'size': size, 'signature': s2.hex()[:80], 'msg': msg.hex()[:100]})
+                if o7.startswith('crash'):
+                    viol(ctx, 'verify_signature', 'left with ' + o7, p, {'variant': label})
             rs = R.rsa_sign(priv, kind, hid, msg)
             o5, r5, _ = verify(pub, msg, rs)
             if o5 != 'done' or r5 is not True:
@@ -1142,6 +1205,12 @@ def run_server(ctx, cases, meta, rsa_cache):
         tuples = sym_tuples(ctx, ctx.subrng('server-grid'))
         if quick:
             tuples = [x for k, x in enumerate(tuples) if k % 4 == rng.randrange(4)]
+        # every authenticated mode over the EMPTY message (and one byte), both protocol versions (ti alternates)
+        for aad in (None, b'header'):
+            for taglen in (12, 16):
+                for ivk in ('absent', 'right'):
+                    for fl in (0, 0, 1):
+                        tuples.append(dict(alg=A.AES, bits=128, mode=M.GCM, pad=None, ivk=ivk, aad=aad, taglen=taglen, force_len=fl))
         uids = {}
         for ti, tp in enumerate(tuples):
             alg = tp['alg']
@@ -1159,7 +1228,7 @@ def run_server(ctx, cases, meta, rsa_cache):
             if uid is None:
                 continue
             lens = msg_lengths(alg)
-            msg = rbytes(rng, lens[ti % 6])
+            msg = rbytes(rng, tp.get('force_len', lens[ti % 6]))
             iv = make_iv(rng, tp)
             p = dict(alg=alg, key=key, mode=tp['mode'], pad=tp['pad'], iv=iv, aad=tp['aad'], taglen=tp['taglen'])
             cpar = kdrv.crypto_params(cryptographic_algorithm=alg, block_cipher_mode=tp['mode'], padding_method=tp['pad'],
@@ -1204,14 +1273,14 @@ def run_server(ctx, cases, meta, rsa_cache):
                     cp.byts(out if o2 == 'done' and out is not None else b'')))
                 meta.append(('server/decrypt', pj(dp), len(ct), o2))
             if tp['mode'] == M.GCM and tag:
-                for label, kw in (('ct', dict(data=flip(ct) if ct else b'\x00', tag=tag, aad=tp['aad'])),
-                                  ('tag', dict(data=ct, tag=flip(tag), aad=tp['aad'])),
-                                  ('aad', dict(data=ct, tag=tag, aad=flip(tp['aad']) if tp['aad'] else b'x'))):
-                    if label == 'ct' and not ct:
-                        continue
-                    o3, it3, _ = req(kdrv.decrypt(uid, cpar, iv=used_iv, **kw), ver)
+                for label, kw in (('ct', dict(data=flip(ct) if ct else b'\x00', tag=tag, aad=tp['aad'], iv=used_iv)),
+                                  ('tag', dict(data=ct, tag=flip(tag), aad=tp['aad'], iv=used_iv)),
+                                  ('aad', dict(data=ct, tag=tag, aad=flip(tp['aad']) if tp['aad'] else b'x', iv=used_iv)),
+                                  ('nonce', dict(data=ct, tag=tag, aad=tp['aad'], iv=flip(used_iv) if used_iv else b'\x00' * 12))):
+                    o3, it3, _ = req(kdrv.decrypt(uid, cpar, **kw), ver)
                     if o3 == 'done':
-                        viol(ctx, 'Decrypt', 'GCM accepted a modified %s through the server' % label, p, {})
+                        viol(ctx, 'Decrypt', 'GCM accepted a modified %s through the server%s' % (label, '' if ct else ' (empty message)'), p,
+                             {'msg': msg.hex()[:100], 'version': '%d.%d' % ver})
         # ---------------- MAC
         for alg in [A.HMAC_SHA1, A.HMAC_SHA224, A.HMAC_SHA256, A.HMAC_SHA384, A.HMAC_SHA512, A.HMAC_MD5,
                     A.AES, A.TRIPLE_DES, A.BLOWFISH, A.CAMELLIA, A.CAST5, A.IDEA, A.RC4, A.RSA]:
@@ -1577,6 +1646,16 @@ def run_server(ctx, cases, meta, rsa_cache):
                 o3, v3, _ = sv(other_pub, msg, sig)
                 if o3 != 'done' or v3 != 'INVALID':
                     viol(ctx, 'SignatureVerify', 'signature checked with the key of another pair is not INVALID', q, {'outcome': o3, 'validity': v3})
+                for label, s2 in (('zero-prefixed', b'\x00' + sig), ('zero-suffixed', sig + b'\x00'), ('first octet dropped', sig[1:]),
+                                  ('last octet dropped', sig[:-1])):
+                    o4, v4, _ = sv(pub_uid, msg, s2)
+                    if o4 == 'done' and v4 != 'INVALID':
+                        if label == 'first octet dropped' and sig[0] == 0:
+                            ctx.violation(dict(PSS_ZERO_SIG, padding=kind if kind == 'PSS' else 'PKCS1v15'), {'size': size, 'signature': s2.hex(), 'path': 'server'},
+                                          'C06 SignatureVerify: a genuine signature with its leading zero octet dropped is reported VALID')
+                        else:
+                            viol(ctx, 'SignatureVerify', 'a genuine signature changed in length (%s) is reported VALID' % label, q,
+                                 {'size': size, 'signature': s2.hex()[:80]})
             # Sign / SignatureVerify only use the keys: stored material unchanged, also when a later batch item commits
             pss = kdrv.crypto_params(digital_signature_algorithm=DSA.SHA256_WITH_RSA_ENCRYPTION, padding_method=P.PSS)
             res = reqn([kdrv.sign(priv_uid, pss, data=b'batch'), kdrv.create(A.AES, 128, mask=[CM.ENCRYPT])])
@@ -1593,8 +1672,44 @@ def run_server(ctx, cases, meta, rsa_cache):
 
 
 # ============================================================================ run
+def load_own_findings(ctx):
+    """findings.d/C06.json is merged into known_findings.json by bin/mkmanifest; until then read it here too."""
+    from pathlib import Path
+    f = Path(__file__).resolve().parents[1] / 'findings.d' / 'C06.json'
+    try:
+        mine = json.loads(f.read_text())
+    except Exception:
+        mine = []
+    have = {x.get('id') for x in ctx.findings}
+    ctx.findings += [x for x in mine if x.get('property') == 'C06' and x.get('id') not in have]
+
+
+PSS_ZERO_SIG = {'op': 'verify_signature', 'variant': 'leading zero octet dropped', 'padding': 'PSS'}
+
+
+def pss_leading_zero(ctx, eng, rsa_cache):
+    """Deterministic reproduction of the known finding: find a genuine PSS signature that starts with 0x00."""
+    for size in sorted(rsa_cache)[:1]:
+        pub, priv = rsa_cache[size]
+        for padn, pad in (('PSS', P.PSS), ('PKCS1v15', P.PKCS1v15)):
+            for i in range(4000):
+                msg = b'leading zero search %d' % i
+                o, sig, _ = call(eng.sign, DSA.SHA256_WITH_RSA_ENCRYPTION, None, None, pad, priv, msg)
+                if o != 'done':
+                    break
+                if sig[0] == 0:
+                    o2, r2, _ = call(eng.verify_signature, pub, msg, sig[1:], pad, digital_signature_algorithm=DSA.SHA256_WITH_RSA_ENCRYPTION)
+                    ctx.count('verify.leading_zero_dropped.%s.%s' % (padn, r2 if o2 == 'done' else o2))
+                    if o2 == 'done' and r2 is not False:
+                        ctx.violation(dict(PSS_ZERO_SIG, padding=padn),
+                                      {'size': size, 'msg': msg.decode(), 'signature_without_leading_zero': sig[1:].hex()},
+                                      'C06 verify_signature: a genuine %s signature with its leading zero octet dropped is reported valid' % padn)
+                    break
+
+
 def run(ctx):
     logging.disable(logging.CRITICAL)
+    load_own_findings(ctx)
     ctx.cov['rule'] = (
         'complete finite grid of parameter tuples (algorithm x key size x block mode x padding x IV absent/right/wrong '
         'length x AAD x tag length; HMACs + CMACs; derivation methods x hashes x data/key/salt/iterations; RSA sizes x '
@@ -1625,11 +1740,13 @@ def run(ctx):
         rsa_cache = {}
         run_padding(ctx, cases, meta)
         run_symmetric(ctx, eng, cases, meta)
+        run_authenticated_empty(ctx, eng, cases, meta)
         run_mac(ctx, eng, cases, meta)
         run_derive(ctx, eng, cases, meta)
         run_wrap(ctx, eng, cases, meta)
         run_create(ctx, eng, cases, meta, rsa_cache)
         run_rsa(ctx, eng, cases, meta, rsa_cache)
+        pss_leading_zero(ctx, eng, rsa_cache)
         run_server(ctx, cases, meta, rsa_cache)
         ctx.log('built %d Coq cases' % len(cases))
         bad = ctx.run_cases('plans', HEADER, cases, 'check_ccase', shard=600, what='outcome class + observed primitive call vs Crypto/Plan.v')
